@@ -191,6 +191,9 @@ def narrowed_lengths(f, ps):
                 users = [J for J in f.insts if any(tuple(o) == ("i", I.id) for o in J.ops if isinstance(o, (list, tuple)))]
                 if users and all(J.op == "call" and (J.callee or "") == "tinyjambu_aead_check_tag" for J in users):
                     continue
+                if len(e) > 4 and e[4]:
+                    raise Broken("%s: a length-derived value (%s) is truncated to %d bits inside a loop; whether it is bounded there depends on conditions established "
+                                 "before the loop, which the per-iteration summary does not carry: not decided" % (f.name, e[3], e[2]))
                 out[e[1]] = e
     return out
 
@@ -205,6 +208,9 @@ def narrowings(c, f, ps):
                 users = [J for J in f.insts if any(tuple(o) == ("i", I.id) for o in J.ops if isinstance(o, (list, tuple)))]
                 if users and all(J.op == "call" and (J.callee or "") == "tinyjambu_aead_check_tag" for J in users):
                     continue        # only the length handed to check_tag is narrowed: the wipe extent is C04's (R-C04-ARGS), not a mode matter
+                if len(e) > 4 and e[4]:
+                    raise Broken("%s: a length-derived value (%s) is truncated to %d bits inside a loop; whether it is bounded there depends on conditions established "
+                                 "before the loop, which the per-iteration summary does not carry: not decided" % (f.name, e[3], e[2]))
                 seen.add(e[1])
                 c.ob(False, "ADVANCE", "length-narrowed#%s" % I.id, "",
                      "the length-derived value %s is truncated to %d bits with no bound on this path: for lengths >= 2^%d the number of blocks processed is wrong"
